@@ -76,15 +76,34 @@ def parse(lines, root, cwd):
             p = os.path.join(dirpath or cwd, p)
         return os.path.normpath(p)
 
-    for ln in lines:
-        if "<unfinished" in ln or "resumed>" in ln:
-            # only tolerate interleaving for calls we do not model
-            m = re.match(r"^\d+\s+(?:<\.\.\. )?(\w+)", ln)
-            raise RecorderError("interleaved system calls in the trace: %s" % ln[:120])
+    # threads (strace -f): a call of one thread may be reported in two pieces around calls of another thread.  The pieces
+    # are joined and the call is placed where it completed; if two calls that both produce events overlap in time the
+    # order of their effects is not known and the recording is refused.
+    pending = {}
+    items = []
+    for i, ln in enumerate(lines):
+        mu = re.match(r"^(\d+)\s+(\w+)\((.*) <unfinished \.\.\.>\s*$", ln)
+        if mu:
+            pending[mu.group(1)] = (i, "%s %s(%s" % (mu.group(1), mu.group(2), mu.group(3)))
+            continue
+        mr = re.match(r"^(\d+)\s+<\.\.\. (\w+) resumed>(.*)$", ln)
+        if mr:
+            st = pending.pop(mr.group(1), None)
+            if st is None:
+                continue
+            items.append((st[0], i, st[1] + mr.group(3)))
+            continue
+        items.append((i, i, ln))
+    spans = []
+    for (i0, i1, ln) in items:
+        nev = len(events)
         m = _LINE.match(ln)
         if not m:
             continue
         pid, call, args, ret, retpath, _rest = m.groups()
+        pid = "*"  # threads of the one traced process share their descriptor table
+        _span_mark = (i0, i1, nev)
+        spans.append(_span_mark)
         if ret in ("?",) or ret.startswith("-"):
             continue
         ret = int(ret)
@@ -240,6 +259,18 @@ def parse(lines, root, cwd):
                 fdm = re.search(r"(\d+)<([^>]*)>", args)
                 if fdm and under(unhex(fdm.group(2)).decode("utf-8", "surrogateescape")):
                     raise RecorderError("shared writable mapping of a store file")
+    # overlap check: the events of a call reported in two pieces must not be interleaved with events of other calls
+    produced = []
+    for k, (i0, i1, nev) in enumerate(spans):
+        nxt = spans[k + 1][2] if k + 1 < len(spans) else len(events)
+        if nxt > nev:
+            produced.append((i0, i1))
+    for (a0, a1) in produced:
+        if a0 == a1:
+            continue
+        for (b0, b1) in produced:
+            if (b0, b1) != (a0, a1) and b0 < a1 and b1 > a0:
+                raise RecorderError("two file-system mutations of different threads overlap in the trace (lines %d-%d and %d-%d): their order is not known" % (a0, a1, b0, b1))
     return events
 
 
